@@ -299,6 +299,8 @@ def _jobs(tier):
                ['A'] * 7 + ['D', 'D', 'A', 'A', 'G'], ['A'] * 5 + ['D', 'A', 'A', 'A', 'G'], ['A'] * 4 + ['D', 'D', 'D', 'A', 'A', 'A']]
         for f in fam:
             add(f, 4)
+        for s in skeletons(['A', 'M', 'G'], 3):  # drop-oldest option
+            add(s, 4, 4)
     else:
         for b in (1, 2, 3, 4, 10):
             for d in (1, 2):
